@@ -203,13 +203,13 @@ def prove():
 @inited
 def printwire(sh, nm):
     if qapv is not None:
-        print(nm+":", int(sh), file=qapv) # (a bool is a legal value, "True" is not a legal wire value)
+        print(nm+":", int(sh) % vc_p, file=qapv) # a field element (not "True", not thousands of digits)
         qapv.flush()
 
 @inited
 def printwireout(sh, nm):
     if qapvo is not None:
-        print(nm+":", int(sh), file=qapvo)
+        print(nm+":", int(sh) % vc_p, file=qapvo)
         qapvo.flush()
 
 def enterfn(fname, call=None):
